@@ -131,10 +131,15 @@
 
 // fail_if_error() is used in parser actions for aborting the parsing if an
 // error has occurred. See fail_with_error for details.
+// The argument is evaluated exactly once, it is usually a function call.
 #define fail_if_error(e) \
-    if (e != ERROR_SUCCESS && e != ERROR_UNKNOWN_ESCAPE_SEQUENCE) \
     { \
-      fail_with_error(e); \
+      int fail_if_error_result = (e); \
+      if (fail_if_error_result != ERROR_SUCCESS && \
+          fail_if_error_result != ERROR_UNKNOWN_ESCAPE_SEQUENCE) \
+      { \
+        fail_with_error(fail_if_error_result); \
+      } \
     }
 
 
@@ -204,7 +209,7 @@
     "ABCDEFGHIJKLMNOPQRSTUVWXYZabcdefghijklmnopqrstuvwxyz0123456789+/"
 
 
-#line 208 "libyara/grammar.c"
+#line 213 "libyara/grammar.c"
 
 # ifndef YY_CAST
 #  ifdef __cplusplus
@@ -383,7 +388,7 @@ extern int yara_yydebug;
 #if ! defined YYSTYPE && ! defined YYSTYPE_IS_DECLARED
 union YYSTYPE
 {
-#line 347 "libyara/grammar.y"
+#line 352 "libyara/grammar.y"
 
   YR_EXPRESSION   expression;
   SIZED_STRING*   sized_string;
@@ -398,7 +403,7 @@ union YYSTYPE
   YR_ARENA_REF meta;
   YR_ARENA_REF string;
 
-#line 402 "libyara/grammar.c"
+#line 407 "libyara/grammar.c"
 
 };
 typedef union YYSTYPE YYSTYPE;
@@ -946,23 +951,23 @@ static const yytype_int8 yytranslate[] =
 /* YYRLINE[YYN] -- Source line where rule number YYN was defined.  */
 static const yytype_int16 yyrline[] =
 {
-       0,   366,   366,   367,   368,   369,   370,   371,   372,   376,
-     384,   397,   402,   396,   433,   436,   452,   455,   470,   478,
-     479,   484,   485,   491,   494,   510,   519,   561,   562,   567,
-     584,   598,   612,   626,   644,   645,   651,   650,   667,   666,
-     687,   686,   711,   717,   777,   778,   779,   780,   781,   782,
-     788,   809,   840,   845,   862,   867,   887,   888,   902,   903,
-     904,   905,   906,   910,   911,   925,   929,  1025,  1073,  1134,
-    1179,  1180,  1184,  1219,  1272,  1327,  1358,  1365,  1372,  1385,
-    1396,  1407,  1418,  1429,  1440,  1451,  1462,  1477,  1493,  1505,
-    1580,  1618,  1522,  1747,  1770,  1782,  1810,  1829,  1852,  1900,
-    1907,  1914,  1913,  1960,  1959,  2010,  2018,  2026,  2034,  2042,
-    2050,  2058,  2062,  2070,  2071,  2096,  2116,  2144,  2218,  2250,
-    2268,  2279,  2322,  2338,  2358,  2368,  2367,  2376,  2390,  2391,
-    2396,  2406,  2421,  2420,  2433,  2434,  2439,  2472,  2497,  2553,
-    2560,  2566,  2572,  2582,  2586,  2594,  2606,  2620,  2627,  2634,
-    2659,  2671,  2683,  2695,  2710,  2722,  2737,  2783,  2804,  2839,
-    2874,  2908,  2939,  2962,  2972,  2982,  2992,  3002,  3022,  3042
+       0,   371,   371,   372,   373,   374,   375,   376,   377,   381,
+     389,   402,   407,   401,   438,   441,   457,   460,   475,   483,
+     484,   489,   490,   496,   499,   515,   524,   566,   567,   572,
+     589,   603,   617,   631,   649,   650,   656,   655,   672,   671,
+     692,   691,   716,   722,   782,   783,   784,   785,   786,   787,
+     793,   814,   845,   850,   867,   872,   892,   893,   907,   908,
+     909,   910,   911,   915,   916,   930,   934,  1030,  1078,  1139,
+    1184,  1185,  1189,  1224,  1277,  1332,  1363,  1370,  1377,  1390,
+    1401,  1412,  1423,  1434,  1445,  1456,  1467,  1482,  1498,  1510,
+    1585,  1623,  1527,  1752,  1775,  1787,  1815,  1834,  1857,  1905,
+    1912,  1919,  1918,  1965,  1964,  2015,  2023,  2031,  2039,  2047,
+    2055,  2063,  2067,  2075,  2076,  2101,  2121,  2149,  2223,  2255,
+    2273,  2284,  2327,  2343,  2363,  2373,  2372,  2381,  2395,  2396,
+    2401,  2411,  2426,  2425,  2438,  2439,  2444,  2477,  2502,  2558,
+    2565,  2571,  2577,  2587,  2591,  2599,  2611,  2625,  2632,  2639,
+    2664,  2676,  2688,  2700,  2715,  2727,  2742,  2788,  2809,  2844,
+    2879,  2913,  2944,  2967,  2977,  2987,  2997,  3007,  3027,  3047
 };
 #endif
 
@@ -1778,61 +1783,61 @@ yydestruct (const char *yymsg,
   switch (yykind)
     {
     case YYSYMBOL__IDENTIFIER_: /* "identifier"  */
-#line 317 "libyara/grammar.y"
+#line 322 "libyara/grammar.y"
             { yr_free(((*yyvaluep).c_string)); ((*yyvaluep).c_string) = NULL; }
-#line 1784 "libyara/grammar.c"
+#line 1789 "libyara/grammar.c"
         break;
 
     case YYSYMBOL__STRING_IDENTIFIER_: /* "string identifier"  */
-#line 321 "libyara/grammar.y"
+#line 326 "libyara/grammar.y"
             { yr_free(((*yyvaluep).c_string)); ((*yyvaluep).c_string) = NULL; }
-#line 1790 "libyara/grammar.c"
+#line 1795 "libyara/grammar.c"
         break;
 
     case YYSYMBOL__STRING_COUNT_: /* "string count"  */
-#line 318 "libyara/grammar.y"
+#line 323 "libyara/grammar.y"
             { yr_free(((*yyvaluep).c_string)); ((*yyvaluep).c_string) = NULL; }
-#line 1796 "libyara/grammar.c"
+#line 1801 "libyara/grammar.c"
         break;
 
     case YYSYMBOL__STRING_OFFSET_: /* "string offset"  */
-#line 319 "libyara/grammar.y"
+#line 324 "libyara/grammar.y"
             { yr_free(((*yyvaluep).c_string)); ((*yyvaluep).c_string) = NULL; }
-#line 1802 "libyara/grammar.c"
+#line 1807 "libyara/grammar.c"
         break;
 
     case YYSYMBOL__STRING_LENGTH_: /* "string length"  */
-#line 320 "libyara/grammar.y"
+#line 325 "libyara/grammar.y"
             { yr_free(((*yyvaluep).c_string)); ((*yyvaluep).c_string) = NULL; }
-#line 1808 "libyara/grammar.c"
+#line 1813 "libyara/grammar.c"
         break;
 
     case YYSYMBOL__STRING_IDENTIFIER_WITH_WILDCARD_: /* "string identifier with wildcard"  */
-#line 322 "libyara/grammar.y"
+#line 327 "libyara/grammar.y"
             { yr_free(((*yyvaluep).c_string)); ((*yyvaluep).c_string) = NULL; }
-#line 1814 "libyara/grammar.c"
+#line 1819 "libyara/grammar.c"
         break;
 
     case YYSYMBOL__TEXT_STRING_: /* "text string"  */
-#line 323 "libyara/grammar.y"
+#line 328 "libyara/grammar.y"
             { yr_free(((*yyvaluep).sized_string)); ((*yyvaluep).sized_string) = NULL; }
-#line 1820 "libyara/grammar.c"
+#line 1825 "libyara/grammar.c"
         break;
 
     case YYSYMBOL__HEX_STRING_: /* "hex string"  */
-#line 324 "libyara/grammar.y"
+#line 329 "libyara/grammar.y"
             { yr_free(((*yyvaluep).sized_string)); ((*yyvaluep).sized_string) = NULL; }
-#line 1826 "libyara/grammar.c"
+#line 1831 "libyara/grammar.c"
         break;
 
     case YYSYMBOL__REGEXP_: /* "regular expression"  */
-#line 325 "libyara/grammar.y"
+#line 330 "libyara/grammar.y"
             { yr_free(((*yyvaluep).sized_string)); ((*yyvaluep).sized_string) = NULL; }
-#line 1832 "libyara/grammar.c"
+#line 1837 "libyara/grammar.c"
         break;
 
     case YYSYMBOL_string_modifiers: /* string_modifiers  */
-#line 338 "libyara/grammar.y"
+#line 343 "libyara/grammar.y"
             {
   if (((*yyvaluep).modifier).alphabet != NULL)
   {
@@ -1840,11 +1845,11 @@ yydestruct (const char *yymsg,
     ((*yyvaluep).modifier).alphabet = NULL;
   }
 }
-#line 1844 "libyara/grammar.c"
+#line 1849 "libyara/grammar.c"
         break;
 
     case YYSYMBOL_string_modifier: /* string_modifier  */
-#line 330 "libyara/grammar.y"
+#line 335 "libyara/grammar.y"
             {
   if (((*yyvaluep).modifier).alphabet != NULL)
   {
@@ -1852,19 +1857,19 @@ yydestruct (const char *yymsg,
     ((*yyvaluep).modifier).alphabet = NULL;
   }
 }
-#line 1856 "libyara/grammar.c"
+#line 1861 "libyara/grammar.c"
         break;
 
     case YYSYMBOL_arguments: /* arguments  */
-#line 327 "libyara/grammar.y"
+#line 332 "libyara/grammar.y"
             { yr_free(((*yyvaluep).c_string)); ((*yyvaluep).c_string) = NULL; }
-#line 1862 "libyara/grammar.c"
+#line 1867 "libyara/grammar.c"
         break;
 
     case YYSYMBOL_arguments_list: /* arguments_list  */
-#line 328 "libyara/grammar.y"
+#line 333 "libyara/grammar.y"
             { yr_free(((*yyvaluep).c_string)); ((*yyvaluep).c_string) = NULL; }
-#line 1868 "libyara/grammar.c"
+#line 1873 "libyara/grammar.c"
         break;
 
       default:
@@ -2141,23 +2146,23 @@ yyreduce:
   switch (yyn)
     {
   case 8: /* rules: rules "end of included file"  */
-#line 373 "libyara/grammar.y"
+#line 378 "libyara/grammar.y"
       {
         _yr_compiler_pop_file_name(compiler);
       }
-#line 2149 "libyara/grammar.c"
+#line 2154 "libyara/grammar.c"
     break;
 
   case 9: /* rules: rules error "end of included file"  */
-#line 377 "libyara/grammar.y"
+#line 382 "libyara/grammar.y"
       {
         _yr_compiler_pop_file_name(compiler);
       }
-#line 2157 "libyara/grammar.c"
+#line 2162 "libyara/grammar.c"
     break;
 
   case 10: /* import: "<import>" "text string"  */
-#line 385 "libyara/grammar.y"
+#line 390 "libyara/grammar.y"
       {
         int result = yr_parser_reduce_import(yyscanner, (yyvsp[0].sized_string));
 
@@ -2165,20 +2170,20 @@ yyreduce:
 
         fail_if_error(result);
       }
-#line 2169 "libyara/grammar.c"
+#line 2174 "libyara/grammar.c"
     break;
 
   case 11: /* @1: %empty  */
-#line 397 "libyara/grammar.y"
+#line 402 "libyara/grammar.y"
       {
         fail_if_error(yr_parser_reduce_rule_declaration_phase_1(
             yyscanner, (int32_t) (yyvsp[-2].integer), (yyvsp[0].c_string), &(yyval.rule)));
       }
-#line 2178 "libyara/grammar.c"
+#line 2183 "libyara/grammar.c"
     break;
 
   case 12: /* $@2: %empty  */
-#line 402 "libyara/grammar.y"
+#line 407 "libyara/grammar.y"
       {
         YR_RULE* rule = (YR_RULE*) yr_arena_ref_to_ptr(
             compiler->arena, &(yyvsp[-4].rule));
@@ -2192,11 +2197,11 @@ yyreduce:
         rule->strings = (YR_STRING*) yr_arena_ref_to_ptr(
             compiler->arena, &(yyvsp[0].string));
       }
-#line 2196 "libyara/grammar.c"
+#line 2201 "libyara/grammar.c"
     break;
 
   case 13: /* rule: rule_modifiers "<rule>" "identifier" @1 tags '{' meta strings $@2 condition '}'  */
-#line 416 "libyara/grammar.y"
+#line 421 "libyara/grammar.y"
       {
         YR_RULE* rule = (YR_RULE*) yr_arena_ref_to_ptr(
             compiler->arena, &(yyvsp[-7].rule));
@@ -2209,19 +2214,19 @@ yyreduce:
 
         fail_if_error(result);
       }
-#line 2213 "libyara/grammar.c"
+#line 2218 "libyara/grammar.c"
     break;
 
   case 14: /* meta: %empty  */
-#line 433 "libyara/grammar.y"
+#line 438 "libyara/grammar.y"
       {
         (yyval.meta) = YR_ARENA_NULL_REF;
       }
-#line 2221 "libyara/grammar.c"
+#line 2226 "libyara/grammar.c"
     break;
 
   case 15: /* meta: "<meta>" ':' meta_declarations  */
-#line 437 "libyara/grammar.y"
+#line 442 "libyara/grammar.y"
       {
         YR_META* meta = yr_arena_get_ptr(
             compiler->arena,
@@ -2232,19 +2237,19 @@ yyreduce:
 
         (yyval.meta) = (yyvsp[0].meta);
       }
-#line 2236 "libyara/grammar.c"
+#line 2241 "libyara/grammar.c"
     break;
 
   case 16: /* strings: %empty  */
-#line 452 "libyara/grammar.y"
+#line 457 "libyara/grammar.y"
       {
         (yyval.string) = YR_ARENA_NULL_REF;
       }
-#line 2244 "libyara/grammar.c"
+#line 2249 "libyara/grammar.c"
     break;
 
   case 17: /* strings: "<strings>" ':' string_declarations  */
-#line 456 "libyara/grammar.y"
+#line 461 "libyara/grammar.y"
       {
         YR_STRING* string = (YR_STRING*) yr_arena_get_ptr(
             compiler->arena,
@@ -2255,51 +2260,51 @@ yyreduce:
 
         (yyval.string) = (yyvsp[0].string);
       }
-#line 2259 "libyara/grammar.c"
+#line 2264 "libyara/grammar.c"
     break;
 
   case 18: /* condition: "<condition>" ':' boolean_expression  */
-#line 471 "libyara/grammar.y"
+#line 476 "libyara/grammar.y"
       {
         (yyval.expression) = (yyvsp[0].expression);
       }
-#line 2267 "libyara/grammar.c"
+#line 2272 "libyara/grammar.c"
     break;
 
   case 19: /* rule_modifiers: %empty  */
-#line 478 "libyara/grammar.y"
+#line 483 "libyara/grammar.y"
                                        { (yyval.integer) = 0;  }
-#line 2273 "libyara/grammar.c"
+#line 2278 "libyara/grammar.c"
     break;
 
   case 20: /* rule_modifiers: rule_modifiers rule_modifier  */
-#line 479 "libyara/grammar.y"
+#line 484 "libyara/grammar.y"
                                        { (yyval.integer) = (yyvsp[-1].integer) | (yyvsp[0].integer); }
-#line 2279 "libyara/grammar.c"
+#line 2284 "libyara/grammar.c"
     break;
 
   case 21: /* rule_modifier: "<private>"  */
-#line 484 "libyara/grammar.y"
+#line 489 "libyara/grammar.y"
                      { (yyval.integer) = RULE_FLAGS_PRIVATE; }
-#line 2285 "libyara/grammar.c"
+#line 2290 "libyara/grammar.c"
     break;
 
   case 22: /* rule_modifier: "<global>"  */
-#line 485 "libyara/grammar.y"
+#line 490 "libyara/grammar.y"
                      { (yyval.integer) = RULE_FLAGS_GLOBAL; }
-#line 2291 "libyara/grammar.c"
+#line 2296 "libyara/grammar.c"
     break;
 
   case 23: /* tags: %empty  */
-#line 491 "libyara/grammar.y"
+#line 496 "libyara/grammar.y"
       {
         (yyval.tag) = YR_ARENA_NULL_REF;
       }
-#line 2299 "libyara/grammar.c"
+#line 2304 "libyara/grammar.c"
     break;
 
   case 24: /* tags: ':' tag_list  */
-#line 495 "libyara/grammar.y"
+#line 500 "libyara/grammar.y"
       {
         // Tags list is represented in the arena as a sequence
         // of null-terminated strings, the sequence ends with an
@@ -2311,11 +2316,11 @@ yyreduce:
 
         (yyval.tag) = (yyvsp[0].tag);
       }
-#line 2315 "libyara/grammar.c"
+#line 2320 "libyara/grammar.c"
     break;
 
   case 25: /* tag_list: "identifier"  */
-#line 511 "libyara/grammar.y"
+#line 516 "libyara/grammar.y"
       {
         int result = yr_arena_write_string(
             yyget_extra(yyscanner)->arena, YR_SZ_POOL, (yyvsp[0].c_string), &(yyval.tag));
@@ -2324,11 +2329,11 @@ yyreduce:
 
         fail_if_error(result);
       }
-#line 2328 "libyara/grammar.c"
+#line 2333 "libyara/grammar.c"
     break;
 
   case 26: /* tag_list: tag_list "identifier"  */
-#line 520 "libyara/grammar.y"
+#line 525 "libyara/grammar.y"
       {
         YR_ARENA_REF ref;
 
@@ -2365,23 +2370,23 @@ yyreduce:
 
         (yyval.tag) = (yyvsp[-1].tag);
       }
-#line 2369 "libyara/grammar.c"
+#line 2374 "libyara/grammar.c"
     break;
 
   case 27: /* meta_declarations: meta_declaration  */
-#line 561 "libyara/grammar.y"
+#line 566 "libyara/grammar.y"
                                           {  (yyval.meta) = (yyvsp[0].meta); }
-#line 2375 "libyara/grammar.c"
+#line 2380 "libyara/grammar.c"
     break;
 
   case 28: /* meta_declarations: meta_declarations meta_declaration  */
-#line 562 "libyara/grammar.y"
+#line 567 "libyara/grammar.y"
                                           {  (yyval.meta) = (yyvsp[-1].meta); }
-#line 2381 "libyara/grammar.c"
+#line 2386 "libyara/grammar.c"
     break;
 
   case 29: /* meta_declaration: "identifier" '=' "text string"  */
-#line 568 "libyara/grammar.y"
+#line 573 "libyara/grammar.y"
       {
         SIZED_STRING* sized_string = (yyvsp[0].sized_string);
 
@@ -2398,11 +2403,11 @@ yyreduce:
 
         fail_if_error(result);
       }
-#line 2402 "libyara/grammar.c"
+#line 2407 "libyara/grammar.c"
     break;
 
   case 30: /* meta_declaration: "identifier" '=' "integer number"  */
-#line 585 "libyara/grammar.y"
+#line 590 "libyara/grammar.y"
       {
         int result = yr_parser_reduce_meta_declaration(
             yyscanner,
@@ -2416,11 +2421,11 @@ yyreduce:
 
         fail_if_error(result);
       }
-#line 2420 "libyara/grammar.c"
+#line 2425 "libyara/grammar.c"
     break;
 
   case 31: /* meta_declaration: "identifier" '=' '-' "integer number"  */
-#line 599 "libyara/grammar.y"
+#line 604 "libyara/grammar.y"
       {
         int result = yr_parser_reduce_meta_declaration(
             yyscanner,
@@ -2434,11 +2439,11 @@ yyreduce:
 
         fail_if_error(result);
       }
-#line 2438 "libyara/grammar.c"
+#line 2443 "libyara/grammar.c"
     break;
 
   case 32: /* meta_declaration: "identifier" '=' "<true>"  */
-#line 613 "libyara/grammar.y"
+#line 618 "libyara/grammar.y"
       {
         int result = yr_parser_reduce_meta_declaration(
             yyscanner,
@@ -2452,11 +2457,11 @@ yyreduce:
 
         fail_if_error(result);
       }
-#line 2456 "libyara/grammar.c"
+#line 2461 "libyara/grammar.c"
     break;
 
   case 33: /* meta_declaration: "identifier" '=' "<false>"  */
-#line 627 "libyara/grammar.y"
+#line 632 "libyara/grammar.y"
       {
         int result = yr_parser_reduce_meta_declaration(
             yyscanner,
@@ -2470,31 +2475,31 @@ yyreduce:
 
         fail_if_error(result);
       }
-#line 2474 "libyara/grammar.c"
+#line 2479 "libyara/grammar.c"
     break;
 
   case 34: /* string_declarations: string_declaration  */
-#line 644 "libyara/grammar.y"
+#line 649 "libyara/grammar.y"
                                               { (yyval.string) = (yyvsp[0].string); }
-#line 2480 "libyara/grammar.c"
+#line 2485 "libyara/grammar.c"
     break;
 
   case 35: /* string_declarations: string_declarations string_declaration  */
-#line 645 "libyara/grammar.y"
+#line 650 "libyara/grammar.y"
                                               { (yyval.string) = (yyvsp[-1].string); }
-#line 2486 "libyara/grammar.c"
+#line 2491 "libyara/grammar.c"
     break;
 
   case 36: /* $@3: %empty  */
-#line 651 "libyara/grammar.y"
+#line 656 "libyara/grammar.y"
       {
         compiler->current_line = yyget_lineno(yyscanner);
       }
-#line 2494 "libyara/grammar.c"
+#line 2499 "libyara/grammar.c"
     break;
 
   case 37: /* string_declaration: "string identifier" '=' $@3 "text string" string_modifiers  */
-#line 655 "libyara/grammar.y"
+#line 660 "libyara/grammar.y"
       {
         int result = yr_parser_reduce_string_declaration(
             yyscanner, (yyvsp[0].modifier), (yyvsp[-4].c_string), (yyvsp[-1].sized_string), &(yyval.string));
@@ -2506,19 +2511,19 @@ yyreduce:
         fail_if_error(result);
         compiler->current_line = 0;
       }
-#line 2510 "libyara/grammar.c"
+#line 2515 "libyara/grammar.c"
     break;
 
   case 38: /* $@4: %empty  */
-#line 667 "libyara/grammar.y"
+#line 672 "libyara/grammar.y"
       {
         compiler->current_line = yyget_lineno(yyscanner);
       }
-#line 2518 "libyara/grammar.c"
+#line 2523 "libyara/grammar.c"
     break;
 
   case 39: /* string_declaration: "string identifier" '=' $@4 "regular expression" regexp_modifiers  */
-#line 671 "libyara/grammar.y"
+#line 676 "libyara/grammar.y"
       {
         int result;
 
@@ -2534,19 +2539,19 @@ yyreduce:
 
         compiler->current_line = 0;
       }
-#line 2538 "libyara/grammar.c"
+#line 2543 "libyara/grammar.c"
     break;
 
   case 40: /* $@5: %empty  */
-#line 687 "libyara/grammar.y"
+#line 692 "libyara/grammar.y"
       {
         compiler->current_line = yyget_lineno(yyscanner);
       }
-#line 2546 "libyara/grammar.c"
+#line 2551 "libyara/grammar.c"
     break;
 
   case 41: /* string_declaration: "string identifier" '=' $@5 "hex string" hex_modifiers  */
-#line 691 "libyara/grammar.y"
+#line 696 "libyara/grammar.y"
       {
         int result;
 
@@ -2562,22 +2567,22 @@ yyreduce:
 
         compiler->current_line = 0;
       }
-#line 2566 "libyara/grammar.c"
+#line 2571 "libyara/grammar.c"
     break;
 
   case 42: /* string_modifiers: %empty  */
-#line 711 "libyara/grammar.y"
+#line 716 "libyara/grammar.y"
       {
         (yyval.modifier).flags = 0;
         (yyval.modifier).xor_min = 0;
         (yyval.modifier).xor_max = 0;
         (yyval.modifier).alphabet = NULL;
       }
-#line 2577 "libyara/grammar.c"
+#line 2582 "libyara/grammar.c"
     break;
 
   case 43: /* string_modifiers: string_modifiers string_modifier  */
-#line 718 "libyara/grammar.y"
+#line 723 "libyara/grammar.y"
       {
         (yyval.modifier) = (yyvsp[-1].modifier);
 
@@ -2633,51 +2638,51 @@ yyreduce:
           (yyval.modifier).flags = (yyval.modifier).flags | (yyvsp[0].modifier).flags;
         }
       }
-#line 2637 "libyara/grammar.c"
+#line 2642 "libyara/grammar.c"
     break;
 
   case 44: /* string_modifier: "<wide>"  */
-#line 777 "libyara/grammar.y"
+#line 782 "libyara/grammar.y"
                     { (yyval.modifier).flags = STRING_FLAGS_WIDE; }
-#line 2643 "libyara/grammar.c"
+#line 2648 "libyara/grammar.c"
     break;
 
   case 45: /* string_modifier: "<ascii>"  */
-#line 778 "libyara/grammar.y"
+#line 783 "libyara/grammar.y"
                     { (yyval.modifier).flags = STRING_FLAGS_ASCII; }
-#line 2649 "libyara/grammar.c"
+#line 2654 "libyara/grammar.c"
     break;
 
   case 46: /* string_modifier: "<nocase>"  */
-#line 779 "libyara/grammar.y"
+#line 784 "libyara/grammar.y"
                     { (yyval.modifier).flags = STRING_FLAGS_NO_CASE; }
-#line 2655 "libyara/grammar.c"
+#line 2660 "libyara/grammar.c"
     break;
 
   case 47: /* string_modifier: "<fullword>"  */
-#line 780 "libyara/grammar.y"
+#line 785 "libyara/grammar.y"
                     { (yyval.modifier).flags = STRING_FLAGS_FULL_WORD; }
-#line 2661 "libyara/grammar.c"
+#line 2666 "libyara/grammar.c"
     break;
 
   case 48: /* string_modifier: "<private>"  */
-#line 781 "libyara/grammar.y"
+#line 786 "libyara/grammar.y"
                     { (yyval.modifier).flags = STRING_FLAGS_PRIVATE; }
-#line 2667 "libyara/grammar.c"
+#line 2672 "libyara/grammar.c"
     break;
 
   case 49: /* string_modifier: "<xor>"  */
-#line 783 "libyara/grammar.y"
+#line 788 "libyara/grammar.y"
       {
         (yyval.modifier).flags = STRING_FLAGS_XOR;
         (yyval.modifier).xor_min = 0;
         (yyval.modifier).xor_max = 255;
       }
-#line 2677 "libyara/grammar.c"
+#line 2682 "libyara/grammar.c"
     break;
 
   case 50: /* string_modifier: "<xor>" '(' "integer number" ')'  */
-#line 789 "libyara/grammar.y"
+#line 794 "libyara/grammar.y"
       {
         int result = ERROR_SUCCESS;
 
@@ -2693,11 +2698,11 @@ yyreduce:
         (yyval.modifier).xor_min = (uint8_t) (yyvsp[-1].integer);
         (yyval.modifier).xor_max = (uint8_t) (yyvsp[-1].integer);
       }
-#line 2697 "libyara/grammar.c"
+#line 2702 "libyara/grammar.c"
     break;
 
   case 51: /* string_modifier: "<xor>" '(' "integer number" '-' "integer number" ')'  */
-#line 810 "libyara/grammar.y"
+#line 815 "libyara/grammar.y"
       {
         int result = ERROR_SUCCESS;
 
@@ -2728,20 +2733,20 @@ yyreduce:
         (yyval.modifier).xor_min = (uint8_t) (yyvsp[-3].integer);
         (yyval.modifier).xor_max = (uint8_t) (yyvsp[-1].integer);
       }
-#line 2732 "libyara/grammar.c"
+#line 2737 "libyara/grammar.c"
     break;
 
   case 52: /* string_modifier: "<base64>"  */
-#line 841 "libyara/grammar.y"
+#line 846 "libyara/grammar.y"
       {
         (yyval.modifier).flags = STRING_FLAGS_BASE64;
         (yyval.modifier).alphabet = ss_new(DEFAULT_BASE64_ALPHABET);
       }
-#line 2741 "libyara/grammar.c"
+#line 2746 "libyara/grammar.c"
     break;
 
   case 53: /* string_modifier: "<base64>" '(' "text string" ')'  */
-#line 846 "libyara/grammar.y"
+#line 851 "libyara/grammar.y"
       {
         int result = ERROR_SUCCESS;
 
@@ -2758,20 +2763,20 @@ yyreduce:
         (yyval.modifier).flags = STRING_FLAGS_BASE64;
         (yyval.modifier).alphabet = (yyvsp[-1].sized_string);
       }
-#line 2762 "libyara/grammar.c"
+#line 2767 "libyara/grammar.c"
     break;
 
   case 54: /* string_modifier: "<base64wide>"  */
-#line 863 "libyara/grammar.y"
+#line 868 "libyara/grammar.y"
       {
         (yyval.modifier).flags = STRING_FLAGS_BASE64_WIDE;
         (yyval.modifier).alphabet = ss_new(DEFAULT_BASE64_ALPHABET);
       }
-#line 2771 "libyara/grammar.c"
+#line 2776 "libyara/grammar.c"
     break;
 
   case 55: /* string_modifier: "<base64wide>" '(' "text string" ')'  */
-#line 868 "libyara/grammar.y"
+#line 873 "libyara/grammar.y"
       {
         int result = ERROR_SUCCESS;
 
@@ -2788,17 +2793,17 @@ yyreduce:
         (yyval.modifier).flags = STRING_FLAGS_BASE64_WIDE;
         (yyval.modifier).alphabet = (yyvsp[-1].sized_string);
       }
-#line 2792 "libyara/grammar.c"
+#line 2797 "libyara/grammar.c"
     break;
 
   case 56: /* regexp_modifiers: %empty  */
-#line 887 "libyara/grammar.y"
+#line 892 "libyara/grammar.y"
                                           { (yyval.modifier).flags = 0; }
-#line 2798 "libyara/grammar.c"
+#line 2803 "libyara/grammar.c"
     break;
 
   case 57: /* regexp_modifiers: regexp_modifiers regexp_modifier  */
-#line 889 "libyara/grammar.y"
+#line 894 "libyara/grammar.y"
       {
         if ((yyvsp[-1].modifier).flags & (yyvsp[0].modifier).flags)
         {
@@ -2809,47 +2814,47 @@ yyreduce:
           (yyval.modifier).flags = (yyvsp[-1].modifier).flags | (yyvsp[0].modifier).flags;
         }
       }
-#line 2813 "libyara/grammar.c"
+#line 2818 "libyara/grammar.c"
     break;
 
   case 58: /* regexp_modifier: "<wide>"  */
-#line 902 "libyara/grammar.y"
+#line 907 "libyara/grammar.y"
                     { (yyval.modifier).flags = STRING_FLAGS_WIDE; }
-#line 2819 "libyara/grammar.c"
+#line 2824 "libyara/grammar.c"
     break;
 
   case 59: /* regexp_modifier: "<ascii>"  */
-#line 903 "libyara/grammar.y"
+#line 908 "libyara/grammar.y"
                     { (yyval.modifier).flags = STRING_FLAGS_ASCII; }
-#line 2825 "libyara/grammar.c"
+#line 2830 "libyara/grammar.c"
     break;
 
   case 60: /* regexp_modifier: "<nocase>"  */
-#line 904 "libyara/grammar.y"
+#line 909 "libyara/grammar.y"
                     { (yyval.modifier).flags = STRING_FLAGS_NO_CASE; }
-#line 2831 "libyara/grammar.c"
+#line 2836 "libyara/grammar.c"
     break;
 
   case 61: /* regexp_modifier: "<fullword>"  */
-#line 905 "libyara/grammar.y"
+#line 910 "libyara/grammar.y"
                     { (yyval.modifier).flags = STRING_FLAGS_FULL_WORD; }
-#line 2837 "libyara/grammar.c"
+#line 2842 "libyara/grammar.c"
     break;
 
   case 62: /* regexp_modifier: "<private>"  */
-#line 906 "libyara/grammar.y"
+#line 911 "libyara/grammar.y"
                     { (yyval.modifier).flags = STRING_FLAGS_PRIVATE; }
-#line 2843 "libyara/grammar.c"
+#line 2848 "libyara/grammar.c"
     break;
 
   case 63: /* hex_modifiers: %empty  */
-#line 910 "libyara/grammar.y"
+#line 915 "libyara/grammar.y"
                                           { (yyval.modifier).flags = 0; }
-#line 2849 "libyara/grammar.c"
+#line 2854 "libyara/grammar.c"
     break;
 
   case 64: /* hex_modifiers: hex_modifiers hex_modifier  */
-#line 912 "libyara/grammar.y"
+#line 917 "libyara/grammar.y"
       {
         if ((yyvsp[-1].modifier).flags & (yyvsp[0].modifier).flags)
         {
@@ -2860,17 +2865,17 @@ yyreduce:
           (yyval.modifier).flags = (yyvsp[-1].modifier).flags | (yyvsp[0].modifier).flags;
         }
       }
-#line 2864 "libyara/grammar.c"
+#line 2869 "libyara/grammar.c"
     break;
 
   case 65: /* hex_modifier: "<private>"  */
-#line 925 "libyara/grammar.y"
+#line 930 "libyara/grammar.y"
                     { (yyval.modifier).flags = STRING_FLAGS_PRIVATE; }
-#line 2870 "libyara/grammar.c"
+#line 2875 "libyara/grammar.c"
     break;
 
   case 66: /* identifier: "identifier"  */
-#line 930 "libyara/grammar.y"
+#line 935 "libyara/grammar.y"
       {
         YR_EXPRESSION expr;
 
@@ -2966,11 +2971,11 @@ yyreduce:
 
         fail_if_error(result);
       }
-#line 2970 "libyara/grammar.c"
+#line 2975 "libyara/grammar.c"
     break;
 
   case 67: /* identifier: identifier '.' "identifier"  */
-#line 1026 "libyara/grammar.y"
+#line 1031 "libyara/grammar.y"
       {
         int result = ERROR_SUCCESS;
         YR_OBJECT* field = NULL;
@@ -3018,11 +3023,11 @@ yyreduce:
 
         fail_if_error(result);
       }
-#line 3022 "libyara/grammar.c"
+#line 3027 "libyara/grammar.c"
     break;
 
   case 68: /* identifier: identifier '[' primary_expression ']'  */
-#line 1074 "libyara/grammar.y"
+#line 1079 "libyara/grammar.y"
       {
         int result = ERROR_SUCCESS;
         YR_OBJECT_ARRAY* array;
@@ -3082,11 +3087,11 @@ yyreduce:
 
         fail_if_error(result);
       }
-#line 3086 "libyara/grammar.c"
+#line 3091 "libyara/grammar.c"
     break;
 
   case 69: /* identifier: identifier '(' arguments ')'  */
-#line 1135 "libyara/grammar.y"
+#line 1140 "libyara/grammar.y"
       {
         YR_ARENA_REF ref = YR_ARENA_NULL_REF;
         int result = ERROR_SUCCESS;
@@ -3127,23 +3132,23 @@ yyreduce:
 
         fail_if_error(result);
       }
-#line 3131 "libyara/grammar.c"
+#line 3136 "libyara/grammar.c"
     break;
 
   case 70: /* arguments: %empty  */
-#line 1179 "libyara/grammar.y"
+#line 1184 "libyara/grammar.y"
                       { (yyval.c_string) = yr_strdup(""); }
-#line 3137 "libyara/grammar.c"
+#line 3142 "libyara/grammar.c"
     break;
 
   case 71: /* arguments: arguments_list  */
-#line 1180 "libyara/grammar.y"
+#line 1185 "libyara/grammar.y"
                       { (yyval.c_string) = (yyvsp[0].c_string); }
-#line 3143 "libyara/grammar.c"
+#line 3148 "libyara/grammar.c"
     break;
 
   case 72: /* arguments_list: expression  */
-#line 1185 "libyara/grammar.y"
+#line 1190 "libyara/grammar.y"
       {
         (yyval.c_string) = (char*) yr_malloc(YR_MAX_FUNCTION_ARGS + 1);
 
@@ -3178,11 +3183,11 @@ yyreduce:
             assert(compiler->last_error != ERROR_SUCCESS);
         }
       }
-#line 3182 "libyara/grammar.c"
+#line 3187 "libyara/grammar.c"
     break;
 
   case 73: /* arguments_list: arguments_list ',' expression  */
-#line 1220 "libyara/grammar.y"
+#line 1225 "libyara/grammar.y"
       {
         int result = ERROR_SUCCESS;
 
@@ -3231,11 +3236,11 @@ yyreduce:
 
         (yyval.c_string) = (yyvsp[-2].c_string);
       }
-#line 3235 "libyara/grammar.c"
+#line 3240 "libyara/grammar.c"
     break;
 
   case 74: /* regexp: "regular expression"  */
-#line 1273 "libyara/grammar.y"
+#line 1278 "libyara/grammar.y"
       {
         YR_ARENA_REF re_ref;
         RE_ERROR error;
@@ -3286,11 +3291,11 @@ yyreduce:
 
         (yyval.expression).type = EXPRESSION_TYPE_REGEXP;
       }
-#line 3290 "libyara/grammar.c"
+#line 3295 "libyara/grammar.c"
     break;
 
   case 75: /* boolean_expression: expression  */
-#line 1328 "libyara/grammar.y"
+#line 1333 "libyara/grammar.y"
       {
         if ((yyvsp[0].expression).type == EXPRESSION_TYPE_STRING)
         {
@@ -3318,33 +3323,33 @@ yyreduce:
 
         (yyval.expression).type = EXPRESSION_TYPE_BOOLEAN;
       }
-#line 3322 "libyara/grammar.c"
+#line 3327 "libyara/grammar.c"
     break;
 
   case 76: /* expression: "<true>"  */
-#line 1359 "libyara/grammar.y"
+#line 1364 "libyara/grammar.y"
       {
         fail_if_error(yr_parser_emit_push_const(yyscanner, 1));
 
         (yyval.expression).type = EXPRESSION_TYPE_BOOLEAN;
         (yyval.expression).required_strings.count = 0;
       }
-#line 3333 "libyara/grammar.c"
+#line 3338 "libyara/grammar.c"
     break;
 
   case 77: /* expression: "<false>"  */
-#line 1366 "libyara/grammar.y"
+#line 1371 "libyara/grammar.y"
       {
         fail_if_error(yr_parser_emit_push_const(yyscanner, 0));
 
         (yyval.expression).type = EXPRESSION_TYPE_BOOLEAN;
         (yyval.expression).required_strings.count = 0;
       }
-#line 3344 "libyara/grammar.c"
+#line 3349 "libyara/grammar.c"
     break;
 
   case 78: /* expression: primary_expression "<matches>" regexp  */
-#line 1373 "libyara/grammar.y"
+#line 1378 "libyara/grammar.y"
       {
         check_type((yyvsp[-2].expression), EXPRESSION_TYPE_STRING, "matches");
         check_type((yyvsp[0].expression), EXPRESSION_TYPE_REGEXP, "matches");
@@ -3357,11 +3362,11 @@ yyreduce:
         (yyval.expression).type = EXPRESSION_TYPE_BOOLEAN;
         (yyval.expression).required_strings.count = 0;
       }
-#line 3361 "libyara/grammar.c"
+#line 3366 "libyara/grammar.c"
     break;
 
   case 79: /* expression: primary_expression "<contains>" primary_expression  */
-#line 1386 "libyara/grammar.y"
+#line 1391 "libyara/grammar.y"
       {
         check_type((yyvsp[-2].expression), EXPRESSION_TYPE_STRING, "contains");
         check_type((yyvsp[0].expression), EXPRESSION_TYPE_STRING, "contains");
@@ -3372,11 +3377,11 @@ yyreduce:
         (yyval.expression).type = EXPRESSION_TYPE_BOOLEAN;
         (yyval.expression).required_strings.count = 0;
       }
-#line 3376 "libyara/grammar.c"
+#line 3381 "libyara/grammar.c"
     break;
 
   case 80: /* expression: primary_expression "<icontains>" primary_expression  */
-#line 1397 "libyara/grammar.y"
+#line 1402 "libyara/grammar.y"
       {
         check_type((yyvsp[-2].expression), EXPRESSION_TYPE_STRING, "icontains");
         check_type((yyvsp[0].expression), EXPRESSION_TYPE_STRING, "icontains");
@@ -3387,11 +3392,11 @@ yyreduce:
         (yyval.expression).type = EXPRESSION_TYPE_BOOLEAN;
         (yyval.expression).required_strings.count = 0;
       }
-#line 3391 "libyara/grammar.c"
+#line 3396 "libyara/grammar.c"
     break;
 
   case 81: /* expression: primary_expression "<startswith>" primary_expression  */
-#line 1408 "libyara/grammar.y"
+#line 1413 "libyara/grammar.y"
       {
         check_type((yyvsp[-2].expression), EXPRESSION_TYPE_STRING, "startswith");
         check_type((yyvsp[0].expression), EXPRESSION_TYPE_STRING, "startswith");
@@ -3402,11 +3407,11 @@ yyreduce:
         (yyval.expression).type = EXPRESSION_TYPE_BOOLEAN;
         (yyval.expression).required_strings.count = 0;
       }
-#line 3406 "libyara/grammar.c"
+#line 3411 "libyara/grammar.c"
     break;
 
   case 82: /* expression: primary_expression "<istartswith>" primary_expression  */
-#line 1419 "libyara/grammar.y"
+#line 1424 "libyara/grammar.y"
       {
         check_type((yyvsp[-2].expression), EXPRESSION_TYPE_STRING, "istartswith");
         check_type((yyvsp[0].expression), EXPRESSION_TYPE_STRING, "istartswith");
@@ -3417,11 +3422,11 @@ yyreduce:
         (yyval.expression).type = EXPRESSION_TYPE_BOOLEAN;
         (yyval.expression).required_strings.count = 0;
       }
-#line 3421 "libyara/grammar.c"
+#line 3426 "libyara/grammar.c"
     break;
 
   case 83: /* expression: primary_expression "<endswith>" primary_expression  */
-#line 1430 "libyara/grammar.y"
+#line 1435 "libyara/grammar.y"
       {
         check_type((yyvsp[-2].expression), EXPRESSION_TYPE_STRING, "endswith");
         check_type((yyvsp[0].expression), EXPRESSION_TYPE_STRING, "endswith");
@@ -3432,11 +3437,11 @@ yyreduce:
         (yyval.expression).type = EXPRESSION_TYPE_BOOLEAN;
         (yyval.expression).required_strings.count = 0;
       }
-#line 3436 "libyara/grammar.c"
+#line 3441 "libyara/grammar.c"
     break;
 
   case 84: /* expression: primary_expression "<iendswith>" primary_expression  */
-#line 1441 "libyara/grammar.y"
+#line 1446 "libyara/grammar.y"
       {
         check_type((yyvsp[-2].expression), EXPRESSION_TYPE_STRING, "iendswith");
         check_type((yyvsp[0].expression), EXPRESSION_TYPE_STRING, "iendswith");
@@ -3447,11 +3452,11 @@ yyreduce:
         (yyval.expression).type = EXPRESSION_TYPE_BOOLEAN;
         (yyval.expression).required_strings.count = 0;
       }
-#line 3451 "libyara/grammar.c"
+#line 3456 "libyara/grammar.c"
     break;
 
   case 85: /* expression: primary_expression "<iequals>" primary_expression  */
-#line 1452 "libyara/grammar.y"
+#line 1457 "libyara/grammar.y"
       {
         check_type((yyvsp[-2].expression), EXPRESSION_TYPE_STRING, "iequals");
         check_type((yyvsp[0].expression), EXPRESSION_TYPE_STRING, "iequals");
@@ -3462,11 +3467,11 @@ yyreduce:
         (yyval.expression).type = EXPRESSION_TYPE_BOOLEAN;
         (yyval.expression).required_strings.count = 0;
       }
-#line 3466 "libyara/grammar.c"
+#line 3471 "libyara/grammar.c"
     break;
 
   case 86: /* expression: "string identifier"  */
-#line 1463 "libyara/grammar.y"
+#line 1468 "libyara/grammar.y"
       {
         int result = yr_parser_reduce_string_identifier(
             yyscanner,
@@ -3481,11 +3486,11 @@ yyreduce:
         (yyval.expression).type = EXPRESSION_TYPE_BOOLEAN;
         (yyval.expression).required_strings.count = 1;
       }
-#line 3485 "libyara/grammar.c"
+#line 3490 "libyara/grammar.c"
     break;
 
   case 87: /* expression: "string identifier" "<at>" primary_expression  */
-#line 1478 "libyara/grammar.y"
+#line 1483 "libyara/grammar.y"
       {
         int result;
 
@@ -3501,11 +3506,11 @@ yyreduce:
         (yyval.expression).required_strings.count = 1;
         (yyval.expression).type = EXPRESSION_TYPE_BOOLEAN;
       }
-#line 3505 "libyara/grammar.c"
+#line 3510 "libyara/grammar.c"
     break;
 
   case 88: /* expression: "string identifier" "<in>" range  */
-#line 1494 "libyara/grammar.y"
+#line 1499 "libyara/grammar.y"
       {
         int result = yr_parser_reduce_string_identifier(
             yyscanner, (yyvsp[-2].c_string), OP_FOUND_IN, YR_UNDEFINED);
@@ -3517,11 +3522,11 @@ yyreduce:
         (yyval.expression).required_strings.count = 1;
         (yyval.expression).type = EXPRESSION_TYPE_BOOLEAN;
       }
-#line 3521 "libyara/grammar.c"
+#line 3526 "libyara/grammar.c"
     break;
 
   case 89: /* expression: "<for>" for_expression error  */
-#line 1506 "libyara/grammar.y"
+#line 1511 "libyara/grammar.y"
       {
         // Free all the loop variable identifiers, including the variables for
         // the current loop (represented by loop_index), and set loop_index to
@@ -3538,11 +3543,11 @@ yyreduce:
         compiler->loop_index = -1;
         YYERROR;
       }
-#line 3542 "libyara/grammar.c"
+#line 3547 "libyara/grammar.c"
     break;
 
   case 90: /* $@6: %empty  */
-#line 1580 "libyara/grammar.y"
+#line 1585 "libyara/grammar.y"
       {
         // var_frame is used for accessing local variables used in this loop.
         // All local variables are accessed using var_frame as a reference,
@@ -3580,11 +3585,11 @@ yyreduce:
         fail_if_error(yr_parser_emit_with_arg(
             yyscanner, OP_POP_M, var_frame + 2, NULL, NULL));
       }
-#line 3584 "libyara/grammar.c"
+#line 3589 "libyara/grammar.c"
     break;
 
   case 91: /* $@7: %empty  */
-#line 1618 "libyara/grammar.y"
+#line 1623 "libyara/grammar.y"
       {
         YR_LOOP_CONTEXT* loop_ctx = &compiler->loop[compiler->loop_index];
         YR_FIXUP* fixup;
@@ -3633,11 +3638,11 @@ yyreduce:
 
         loop_ctx->start_ref = loop_start_ref;
       }
-#line 3637 "libyara/grammar.c"
+#line 3642 "libyara/grammar.c"
     break;
 
   case 92: /* expression: "<for>" for_expression $@6 for_iteration ':' $@7 '(' boolean_expression ')'  */
-#line 1667 "libyara/grammar.y"
+#line 1672 "libyara/grammar.y"
       {
         int32_t jmp_offset;
         YR_FIXUP* fixup;
@@ -3718,11 +3723,11 @@ yyreduce:
         (yyval.expression).type = EXPRESSION_TYPE_BOOLEAN;
         (yyval.expression).required_strings.count = 0;
       }
-#line 3722 "libyara/grammar.c"
+#line 3727 "libyara/grammar.c"
     break;
 
   case 93: /* expression: for_expression "<of>" string_set  */
-#line 1748 "libyara/grammar.y"
+#line 1753 "libyara/grammar.y"
       {
         if ((yyvsp[-2].expression).type == EXPRESSION_TYPE_INTEGER && (yyvsp[-2].expression).value.integer > (yyvsp[0].integer))
         {
@@ -3745,11 +3750,11 @@ yyreduce:
 
         (yyval.expression).type = EXPRESSION_TYPE_BOOLEAN;
       }
-#line 3749 "libyara/grammar.c"
+#line 3754 "libyara/grammar.c"
     break;
 
   case 94: /* expression: for_expression "<of>" rule_set  */
-#line 1771 "libyara/grammar.y"
+#line 1776 "libyara/grammar.y"
       {
         if ((yyvsp[-2].expression).type == EXPRESSION_TYPE_INTEGER && (yyvsp[-2].expression).value.integer > (yyvsp[0].integer))
         {
@@ -3761,11 +3766,11 @@ yyreduce:
         (yyval.expression).type = EXPRESSION_TYPE_BOOLEAN;
         (yyval.expression).required_strings.count = 0;
       }
-#line 3765 "libyara/grammar.c"
+#line 3770 "libyara/grammar.c"
     break;
 
   case 95: /* expression: primary_expression '%' "<of>" string_set  */
-#line 1783 "libyara/grammar.y"
+#line 1788 "libyara/grammar.y"
       {
         check_type((yyvsp[-3].expression), EXPRESSION_TYPE_INTEGER, "%");
 
@@ -3793,11 +3798,11 @@ yyreduce:
 
         yr_parser_emit_with_arg(yyscanner, OP_OF_PERCENT, OF_STRING_SET, NULL, NULL);
       }
-#line 3797 "libyara/grammar.c"
+#line 3802 "libyara/grammar.c"
     break;
 
   case 96: /* expression: primary_expression '%' "<of>" rule_set  */
-#line 1811 "libyara/grammar.y"
+#line 1816 "libyara/grammar.y"
       {
         check_type((yyvsp[-3].expression), EXPRESSION_TYPE_INTEGER, "%");
 
@@ -3816,11 +3821,11 @@ yyreduce:
 
         yr_parser_emit_with_arg(yyscanner, OP_OF_PERCENT, OF_RULE_SET, NULL, NULL);
       }
-#line 3820 "libyara/grammar.c"
+#line 3825 "libyara/grammar.c"
     break;
 
   case 97: /* expression: for_expression "<of>" string_set "<in>" range  */
-#line 1830 "libyara/grammar.y"
+#line 1835 "libyara/grammar.y"
       {
         if ((yyvsp[-4].expression).type == EXPRESSION_TYPE_INTEGER && (yyvsp[-4].expression).value.integer > (yyvsp[-2].integer))
         {
@@ -3843,11 +3848,11 @@ yyreduce:
 
         (yyval.expression).type = EXPRESSION_TYPE_BOOLEAN;
       }
-#line 3847 "libyara/grammar.c"
+#line 3852 "libyara/grammar.c"
     break;
 
   case 98: /* expression: for_expression "<of>" string_set "<at>" primary_expression  */
-#line 1853 "libyara/grammar.y"
+#line 1858 "libyara/grammar.y"
       {
         if ((yyvsp[0].expression).type != EXPRESSION_TYPE_INTEGER)
         {
@@ -3895,32 +3900,32 @@ yyreduce:
 
         (yyval.expression).type = EXPRESSION_TYPE_BOOLEAN;
       }
-#line 3899 "libyara/grammar.c"
+#line 3904 "libyara/grammar.c"
     break;
 
   case 99: /* expression: "<not>" boolean_expression  */
-#line 1901 "libyara/grammar.y"
+#line 1906 "libyara/grammar.y"
       {
         yr_parser_emit(yyscanner, OP_NOT, NULL);
 
         (yyval.expression).type = EXPRESSION_TYPE_BOOLEAN;
         (yyval.expression).required_strings.count = 0;
       }
-#line 3910 "libyara/grammar.c"
+#line 3915 "libyara/grammar.c"
     break;
 
   case 100: /* expression: "<defined>" boolean_expression  */
-#line 1908 "libyara/grammar.y"
+#line 1913 "libyara/grammar.y"
       {
         yr_parser_emit(yyscanner, OP_DEFINED, NULL);
         (yyval.expression).type = EXPRESSION_TYPE_BOOLEAN;
         (yyval.expression).required_strings.count = 0;
       }
-#line 3920 "libyara/grammar.c"
+#line 3925 "libyara/grammar.c"
     break;
 
   case 101: /* $@8: %empty  */
-#line 1914 "libyara/grammar.y"
+#line 1919 "libyara/grammar.y"
       {
         YR_FIXUP* fixup;
         YR_ARENA_REF jmp_offset_ref;
@@ -3942,11 +3947,11 @@ yyreduce:
         fixup->next = compiler->fixup_stack_head;
         compiler->fixup_stack_head = fixup;
       }
-#line 3946 "libyara/grammar.c"
+#line 3951 "libyara/grammar.c"
     break;
 
   case 102: /* expression: boolean_expression "<and>" $@8 boolean_expression  */
-#line 1936 "libyara/grammar.y"
+#line 1941 "libyara/grammar.y"
       {
         YR_FIXUP* fixup;
 
@@ -3970,11 +3975,11 @@ yyreduce:
         (yyval.expression).type = EXPRESSION_TYPE_BOOLEAN;
         (yyval.expression).required_strings.count = (yyvsp[0].expression).required_strings.count + (yyvsp[-3].expression).required_strings.count;
       }
-#line 3974 "libyara/grammar.c"
+#line 3979 "libyara/grammar.c"
     break;
 
   case 103: /* $@9: %empty  */
-#line 1960 "libyara/grammar.y"
+#line 1965 "libyara/grammar.y"
       {
         YR_FIXUP* fixup;
         YR_ARENA_REF jmp_offset_ref;
@@ -3995,11 +4000,11 @@ yyreduce:
         fixup->next = compiler->fixup_stack_head;
         compiler->fixup_stack_head = fixup;
       }
-#line 3999 "libyara/grammar.c"
+#line 4004 "libyara/grammar.c"
     break;
 
   case 104: /* expression: boolean_expression "<or>" $@9 boolean_expression  */
-#line 1981 "libyara/grammar.y"
+#line 1986 "libyara/grammar.y"
       {
         YR_FIXUP* fixup;
 
@@ -4029,11 +4034,11 @@ yyreduce:
           (yyval.expression).required_strings.count = (yyvsp[-3].expression).required_strings.count;
         }
       }
-#line 4033 "libyara/grammar.c"
+#line 4038 "libyara/grammar.c"
     break;
 
   case 105: /* expression: primary_expression "<" primary_expression  */
-#line 2011 "libyara/grammar.y"
+#line 2016 "libyara/grammar.y"
       {
         fail_if_error(yr_parser_reduce_operation(
             yyscanner, "<", (yyvsp[-2].expression), (yyvsp[0].expression)));
@@ -4041,11 +4046,11 @@ yyreduce:
         (yyval.expression).type = EXPRESSION_TYPE_BOOLEAN;
         (yyval.expression).required_strings.count = 0;
       }
-#line 4045 "libyara/grammar.c"
+#line 4050 "libyara/grammar.c"
     break;
 
   case 106: /* expression: primary_expression ">" primary_expression  */
-#line 2019 "libyara/grammar.y"
+#line 2024 "libyara/grammar.y"
       {
         fail_if_error(yr_parser_reduce_operation(
             yyscanner, ">", (yyvsp[-2].expression), (yyvsp[0].expression)));
@@ -4053,11 +4058,11 @@ yyreduce:
         (yyval.expression).type = EXPRESSION_TYPE_BOOLEAN;
         (yyval.expression).required_strings.count = 0;
       }
-#line 4057 "libyara/grammar.c"
+#line 4062 "libyara/grammar.c"
     break;
 
   case 107: /* expression: primary_expression "<=" primary_expression  */
-#line 2027 "libyara/grammar.y"
+#line 2032 "libyara/grammar.y"
       {
         fail_if_error(yr_parser_reduce_operation(
             yyscanner, "<=", (yyvsp[-2].expression), (yyvsp[0].expression)));
@@ -4065,11 +4070,11 @@ yyreduce:
         (yyval.expression).type = EXPRESSION_TYPE_BOOLEAN;
         (yyval.expression).required_strings.count = 0;
       }
-#line 4069 "libyara/grammar.c"
+#line 4074 "libyara/grammar.c"
     break;
 
   case 108: /* expression: primary_expression ">=" primary_expression  */
-#line 2035 "libyara/grammar.y"
+#line 2040 "libyara/grammar.y"
       {
         fail_if_error(yr_parser_reduce_operation(
             yyscanner, ">=", (yyvsp[-2].expression), (yyvsp[0].expression)));
@@ -4077,11 +4082,11 @@ yyreduce:
         (yyval.expression).type = EXPRESSION_TYPE_BOOLEAN;
         (yyval.expression).required_strings.count = 0;
       }
-#line 4081 "libyara/grammar.c"
+#line 4086 "libyara/grammar.c"
     break;
 
   case 109: /* expression: primary_expression "==" primary_expression  */
-#line 2043 "libyara/grammar.y"
+#line 2048 "libyara/grammar.y"
       {
         fail_if_error(yr_parser_reduce_operation(
             yyscanner, "==", (yyvsp[-2].expression), (yyvsp[0].expression)));
@@ -4089,11 +4094,11 @@ yyreduce:
         (yyval.expression).type = EXPRESSION_TYPE_BOOLEAN;
         (yyval.expression).required_strings.count = 0;
       }
-#line 4093 "libyara/grammar.c"
+#line 4098 "libyara/grammar.c"
     break;
 
   case 110: /* expression: primary_expression "!=" primary_expression  */
-#line 2051 "libyara/grammar.y"
+#line 2056 "libyara/grammar.y"
       {
         fail_if_error(yr_parser_reduce_operation(
             yyscanner, "!=", (yyvsp[-2].expression), (yyvsp[0].expression)));
@@ -4101,33 +4106,33 @@ yyreduce:
         (yyval.expression).type = EXPRESSION_TYPE_BOOLEAN;
         (yyval.expression).required_strings.count = 0;
       }
-#line 4105 "libyara/grammar.c"
+#line 4110 "libyara/grammar.c"
     break;
 
   case 111: /* expression: primary_expression  */
-#line 2059 "libyara/grammar.y"
+#line 2064 "libyara/grammar.y"
       {
         (yyval.expression) = (yyvsp[0].expression);
       }
-#line 4113 "libyara/grammar.c"
+#line 4118 "libyara/grammar.c"
     break;
 
   case 112: /* expression: '(' expression ')'  */
-#line 2063 "libyara/grammar.y"
+#line 2068 "libyara/grammar.y"
       {
         (yyval.expression) = (yyvsp[-1].expression);
       }
-#line 4121 "libyara/grammar.c"
+#line 4126 "libyara/grammar.c"
     break;
 
   case 113: /* for_iteration: for_variables "<in>" iterator  */
-#line 2070 "libyara/grammar.y"
+#line 2075 "libyara/grammar.y"
                                   { (yyval.integer) = FOR_ITERATION_ITERATOR; }
-#line 4127 "libyara/grammar.c"
+#line 4132 "libyara/grammar.c"
     break;
 
   case 114: /* for_iteration: "<of>" string_iterator  */
-#line 2072 "libyara/grammar.y"
+#line 2077 "libyara/grammar.y"
       {
         int var_frame;
         int result = ERROR_SUCCESS;
@@ -4148,11 +4153,11 @@ yyreduce:
 
         (yyval.integer) = FOR_ITERATION_STRING_SET;
       }
-#line 4152 "libyara/grammar.c"
+#line 4157 "libyara/grammar.c"
     break;
 
   case 115: /* for_variables: "identifier"  */
-#line 2097 "libyara/grammar.y"
+#line 2102 "libyara/grammar.y"
       {
         int result = ERROR_SUCCESS;
 
@@ -4172,11 +4177,11 @@ yyreduce:
 
         assert(loop_ctx->vars_count <= YR_MAX_LOOP_VARS);
       }
-#line 4176 "libyara/grammar.c"
+#line 4181 "libyara/grammar.c"
     break;
 
   case 116: /* for_variables: for_variables ',' "identifier"  */
-#line 2117 "libyara/grammar.y"
+#line 2122 "libyara/grammar.y"
       {
         int result = ERROR_SUCCESS;
 
@@ -4201,11 +4206,11 @@ yyreduce:
 
         loop_ctx->vars[loop_ctx->vars_count++].identifier.ptr = (yyvsp[0].c_string);
       }
-#line 4205 "libyara/grammar.c"
+#line 4210 "libyara/grammar.c"
     break;
 
   case 117: /* iterator: identifier  */
-#line 2145 "libyara/grammar.y"
+#line 2150 "libyara/grammar.y"
       {
         YR_LOOP_CONTEXT* loop_ctx = &compiler->loop[compiler->loop_index];
 
@@ -4279,11 +4284,11 @@ yyreduce:
 
         fail_if_error(result);
       }
-#line 4283 "libyara/grammar.c"
+#line 4288 "libyara/grammar.c"
     break;
 
   case 118: /* iterator: set  */
-#line 2219 "libyara/grammar.y"
+#line 2224 "libyara/grammar.y"
       {
         int result = ERROR_SUCCESS;
 
@@ -4311,11 +4316,11 @@ yyreduce:
 
         fail_if_error(result);
       }
-#line 4315 "libyara/grammar.c"
+#line 4320 "libyara/grammar.c"
     break;
 
   case 119: /* set: '(' enumeration ')'  */
-#line 2251 "libyara/grammar.y"
+#line 2256 "libyara/grammar.y"
       {
         // $2.count contains the number of items in the enumeration
         fail_if_error(yr_parser_emit_push_const(yyscanner, (yyvsp[-1].enumeration).count));
@@ -4333,22 +4338,22 @@ yyreduce:
 
         (yyval.enumeration).type = (yyvsp[-1].enumeration).type;
       }
-#line 4337 "libyara/grammar.c"
+#line 4342 "libyara/grammar.c"
     break;
 
   case 120: /* set: range  */
-#line 2269 "libyara/grammar.y"
+#line 2274 "libyara/grammar.y"
       {
         fail_if_error(yr_parser_emit(
             yyscanner, OP_ITER_START_INT_RANGE, NULL));
 
         (yyval.enumeration).type = EXPRESSION_TYPE_INTEGER;
       }
-#line 4348 "libyara/grammar.c"
+#line 4353 "libyara/grammar.c"
     break;
 
   case 121: /* range: '(' primary_expression ".." primary_expression ')'  */
-#line 2280 "libyara/grammar.y"
+#line 2285 "libyara/grammar.y"
       {
         int result = ERROR_SUCCESS;
 
@@ -4387,11 +4392,11 @@ yyreduce:
 
         fail_if_error(result);
       }
-#line 4391 "libyara/grammar.c"
+#line 4396 "libyara/grammar.c"
     break;
 
   case 122: /* enumeration: primary_expression  */
-#line 2323 "libyara/grammar.y"
+#line 2328 "libyara/grammar.y"
       {
         int result = ERROR_SUCCESS;
 
@@ -4407,11 +4412,11 @@ yyreduce:
         (yyval.enumeration).type = (yyvsp[0].expression).type;
         (yyval.enumeration).count = 1;
       }
-#line 4411 "libyara/grammar.c"
+#line 4416 "libyara/grammar.c"
     break;
 
   case 123: /* enumeration: enumeration ',' primary_expression  */
-#line 2339 "libyara/grammar.y"
+#line 2344 "libyara/grammar.y"
       {
         int result = ERROR_SUCCESS;
 
@@ -4427,38 +4432,38 @@ yyreduce:
         (yyval.enumeration).type = (yyvsp[-2].enumeration).type;
         (yyval.enumeration).count = (yyvsp[-2].enumeration).count + 1;
       }
-#line 4431 "libyara/grammar.c"
+#line 4436 "libyara/grammar.c"
     break;
 
   case 124: /* string_iterator: string_set  */
-#line 2359 "libyara/grammar.y"
+#line 2364 "libyara/grammar.y"
       {
         fail_if_error(yr_parser_emit_push_const(yyscanner, (yyvsp[0].integer)));
         fail_if_error(yr_parser_emit(yyscanner, OP_ITER_START_STRING_SET,
             NULL));
       }
-#line 4441 "libyara/grammar.c"
+#line 4446 "libyara/grammar.c"
     break;
 
   case 125: /* $@10: %empty  */
-#line 2368 "libyara/grammar.y"
+#line 2373 "libyara/grammar.y"
       {
         // Push end-of-list marker
         yr_parser_emit_push_const(yyscanner, YR_UNDEFINED);
       }
-#line 4450 "libyara/grammar.c"
+#line 4455 "libyara/grammar.c"
     break;
 
   case 126: /* string_set: '(' $@10 string_enumeration ')'  */
-#line 2373 "libyara/grammar.y"
+#line 2378 "libyara/grammar.y"
       {
         (yyval.integer) = (yyvsp[-1].integer);
       }
-#line 4458 "libyara/grammar.c"
+#line 4463 "libyara/grammar.c"
     break;
 
   case 127: /* string_set: "<them>"  */
-#line 2377 "libyara/grammar.y"
+#line 2382 "libyara/grammar.y"
       {
         fail_if_error(yr_parser_emit_push_const(yyscanner, YR_UNDEFINED));
 
@@ -4468,23 +4473,23 @@ yyreduce:
 
         (yyval.integer) = count;
       }
-#line 4472 "libyara/grammar.c"
+#line 4477 "libyara/grammar.c"
     break;
 
   case 128: /* string_enumeration: string_enumeration_item  */
-#line 2390 "libyara/grammar.y"
+#line 2395 "libyara/grammar.y"
                               { (yyval.integer) = (yyvsp[0].integer); }
-#line 4478 "libyara/grammar.c"
+#line 4483 "libyara/grammar.c"
     break;
 
   case 129: /* string_enumeration: string_enumeration ',' string_enumeration_item  */
-#line 2391 "libyara/grammar.y"
+#line 2396 "libyara/grammar.y"
                                                      { (yyval.integer) = (yyvsp[-2].integer) + (yyvsp[0].integer); }
-#line 4484 "libyara/grammar.c"
+#line 4489 "libyara/grammar.c"
     break;
 
   case 130: /* string_enumeration_item: "string identifier"  */
-#line 2397 "libyara/grammar.y"
+#line 2402 "libyara/grammar.y"
       {
         int count = 0;
         int result = yr_parser_emit_pushes_for_strings(yyscanner, (yyvsp[0].c_string), &count);
@@ -4494,11 +4499,11 @@ yyreduce:
 
         (yyval.integer) = count;
       }
-#line 4498 "libyara/grammar.c"
+#line 4503 "libyara/grammar.c"
     break;
 
   case 131: /* string_enumeration_item: "string identifier with wildcard"  */
-#line 2407 "libyara/grammar.y"
+#line 2412 "libyara/grammar.y"
       {
         int count = 0;
         int result = yr_parser_emit_pushes_for_strings(yyscanner, (yyvsp[0].c_string), &count);
@@ -4508,40 +4513,40 @@ yyreduce:
 
         (yyval.integer) = count;
       }
-#line 4512 "libyara/grammar.c"
+#line 4517 "libyara/grammar.c"
     break;
 
   case 132: /* $@11: %empty  */
-#line 2421 "libyara/grammar.y"
+#line 2426 "libyara/grammar.y"
       {
         // Push end-of-list marker
         yr_parser_emit_push_const(yyscanner, YR_UNDEFINED);
       }
-#line 4521 "libyara/grammar.c"
+#line 4526 "libyara/grammar.c"
     break;
 
   case 133: /* rule_set: '(' $@11 rule_enumeration ')'  */
-#line 2426 "libyara/grammar.y"
+#line 2431 "libyara/grammar.y"
       {
         (yyval.integer) = (yyvsp[-1].integer);
       }
-#line 4529 "libyara/grammar.c"
+#line 4534 "libyara/grammar.c"
     break;
 
   case 134: /* rule_enumeration: rule_enumeration_item  */
-#line 2433 "libyara/grammar.y"
+#line 2438 "libyara/grammar.y"
                             { (yyval.integer) = (yyvsp[0].integer); }
-#line 4535 "libyara/grammar.c"
+#line 4540 "libyara/grammar.c"
     break;
 
   case 135: /* rule_enumeration: rule_enumeration ',' rule_enumeration_item  */
-#line 2434 "libyara/grammar.y"
+#line 2439 "libyara/grammar.y"
                                                  { (yyval.integer) = (yyvsp[-2].integer) + (yyvsp[0].integer); }
-#line 4541 "libyara/grammar.c"
+#line 4546 "libyara/grammar.c"
     break;
 
   case 136: /* rule_enumeration_item: "identifier"  */
-#line 2440 "libyara/grammar.y"
+#line 2445 "libyara/grammar.y"
       {
         int result = ERROR_SUCCESS;
 
@@ -4574,11 +4579,11 @@ yyreduce:
 
         (yyval.integer) = 1;
       }
-#line 4578 "libyara/grammar.c"
+#line 4583 "libyara/grammar.c"
     break;
 
   case 137: /* rule_enumeration_item: "identifier" '*'  */
-#line 2473 "libyara/grammar.y"
+#line 2478 "libyara/grammar.y"
       {
         int count = 0;
         YR_NAMESPACE* ns = (YR_NAMESPACE*) yr_arena_get_ptr(
@@ -4599,11 +4604,11 @@ yyreduce:
 
         (yyval.integer) = count;
       }
-#line 4603 "libyara/grammar.c"
+#line 4608 "libyara/grammar.c"
     break;
 
   case 138: /* for_expression: primary_expression  */
-#line 2498 "libyara/grammar.y"
+#line 2503 "libyara/grammar.y"
       {
         if ((yyvsp[0].expression).type == EXPRESSION_TYPE_INTEGER && !IS_UNDEFINED((yyvsp[0].expression).value.integer))
         {
@@ -4659,57 +4664,57 @@ yyreduce:
 
         (yyval.expression).value.integer = (yyvsp[0].expression).value.integer;
       }
-#line 4663 "libyara/grammar.c"
+#line 4668 "libyara/grammar.c"
     break;
 
   case 139: /* for_expression: for_quantifier  */
-#line 2554 "libyara/grammar.y"
+#line 2559 "libyara/grammar.y"
       {
         (yyval.expression).value.integer = (yyvsp[0].expression).value.integer;
       }
-#line 4671 "libyara/grammar.c"
+#line 4676 "libyara/grammar.c"
     break;
 
   case 140: /* for_quantifier: "<all>"  */
-#line 2561 "libyara/grammar.y"
+#line 2566 "libyara/grammar.y"
       {
         yr_parser_emit_push_const(yyscanner, YR_UNDEFINED);
         (yyval.expression).type = EXPRESSION_TYPE_QUANTIFIER;
         (yyval.expression).value.integer = FOR_EXPRESSION_ALL;
      }
-#line 4681 "libyara/grammar.c"
+#line 4686 "libyara/grammar.c"
     break;
 
   case 141: /* for_quantifier: "<any>"  */
-#line 2567 "libyara/grammar.y"
+#line 2572 "libyara/grammar.y"
       {
         yr_parser_emit_push_const(yyscanner, 1);
         (yyval.expression).type = EXPRESSION_TYPE_QUANTIFIER;
         (yyval.expression).value.integer = FOR_EXPRESSION_ANY;
       }
-#line 4691 "libyara/grammar.c"
+#line 4696 "libyara/grammar.c"
     break;
 
   case 142: /* for_quantifier: "<none>"  */
-#line 2573 "libyara/grammar.y"
+#line 2578 "libyara/grammar.y"
       {
         yr_parser_emit_push_const(yyscanner, 0);
         (yyval.expression).type = EXPRESSION_TYPE_QUANTIFIER;
         (yyval.expression).value.integer = FOR_EXPRESSION_NONE;
       }
-#line 4701 "libyara/grammar.c"
+#line 4706 "libyara/grammar.c"
     break;
 
   case 143: /* primary_expression: '(' primary_expression ')'  */
-#line 2583 "libyara/grammar.y"
+#line 2588 "libyara/grammar.y"
       {
         (yyval.expression) = (yyvsp[-1].expression);
       }
-#line 4709 "libyara/grammar.c"
+#line 4714 "libyara/grammar.c"
     break;
 
   case 144: /* primary_expression: "<filesize>"  */
-#line 2587 "libyara/grammar.y"
+#line 2592 "libyara/grammar.y"
       {
         fail_if_error(yr_parser_emit(
             yyscanner, OP_FILESIZE, NULL));
@@ -4717,11 +4722,11 @@ yyreduce:
         (yyval.expression).type = EXPRESSION_TYPE_INTEGER;
         (yyval.expression).value.integer = YR_UNDEFINED;
       }
-#line 4721 "libyara/grammar.c"
+#line 4726 "libyara/grammar.c"
     break;
 
   case 145: /* primary_expression: "<entrypoint>"  */
-#line 2595 "libyara/grammar.y"
+#line 2600 "libyara/grammar.y"
       {
         yywarning(yyscanner,
             "using deprecated \"entrypoint\" keyword. Use the \"entry_point\" "
@@ -4733,11 +4738,11 @@ yyreduce:
         (yyval.expression).type = EXPRESSION_TYPE_INTEGER;
         (yyval.expression).value.integer = YR_UNDEFINED;
       }
-#line 4737 "libyara/grammar.c"
+#line 4742 "libyara/grammar.c"
     break;
 
   case 146: /* primary_expression: "integer function" '(' primary_expression ')'  */
-#line 2607 "libyara/grammar.y"
+#line 2612 "libyara/grammar.y"
       {
         check_type((yyvsp[-1].expression), EXPRESSION_TYPE_INTEGER, "intXXXX or uintXXXX");
 
@@ -4751,33 +4756,33 @@ yyreduce:
         (yyval.expression).type = EXPRESSION_TYPE_INTEGER;
         (yyval.expression).value.integer = YR_UNDEFINED;
       }
-#line 4755 "libyara/grammar.c"
+#line 4760 "libyara/grammar.c"
     break;
 
   case 147: /* primary_expression: "integer number"  */
-#line 2621 "libyara/grammar.y"
+#line 2626 "libyara/grammar.y"
       {
         fail_if_error(yr_parser_emit_push_const(yyscanner, (yyvsp[0].integer)));
 
         (yyval.expression).type = EXPRESSION_TYPE_INTEGER;
         (yyval.expression).value.integer = (yyvsp[0].integer);
       }
-#line 4766 "libyara/grammar.c"
+#line 4771 "libyara/grammar.c"
     break;
 
   case 148: /* primary_expression: "floating point number"  */
-#line 2628 "libyara/grammar.y"
+#line 2633 "libyara/grammar.y"
       {
         fail_if_error(yr_parser_emit_with_arg_double(
             yyscanner, OP_PUSH, (yyvsp[0].double_), NULL, NULL));
 
         (yyval.expression).type = EXPRESSION_TYPE_FLOAT;
       }
-#line 4777 "libyara/grammar.c"
+#line 4782 "libyara/grammar.c"
     break;
 
   case 149: /* primary_expression: "text string"  */
-#line 2635 "libyara/grammar.y"
+#line 2640 "libyara/grammar.y"
       {
         YR_ARENA_REF ref;
 
@@ -4802,11 +4807,11 @@ yyreduce:
         (yyval.expression).type = EXPRESSION_TYPE_STRING;
         (yyval.expression).value.sized_string_ref = ref;
       }
-#line 4806 "libyara/grammar.c"
+#line 4811 "libyara/grammar.c"
     break;
 
   case 150: /* primary_expression: "string count" "<in>" range  */
-#line 2660 "libyara/grammar.y"
+#line 2665 "libyara/grammar.y"
       {
         int result = yr_parser_reduce_string_identifier(
             yyscanner, (yyvsp[-2].c_string), OP_COUNT_IN, YR_UNDEFINED);
@@ -4818,11 +4823,11 @@ yyreduce:
         (yyval.expression).type = EXPRESSION_TYPE_INTEGER;
         (yyval.expression).value.integer = YR_UNDEFINED;
       }
-#line 4822 "libyara/grammar.c"
+#line 4827 "libyara/grammar.c"
     break;
 
   case 151: /* primary_expression: "string count"  */
-#line 2672 "libyara/grammar.y"
+#line 2677 "libyara/grammar.y"
       {
         int result = yr_parser_reduce_string_identifier(
             yyscanner, (yyvsp[0].c_string), OP_COUNT, YR_UNDEFINED);
@@ -4834,11 +4839,11 @@ yyreduce:
         (yyval.expression).type = EXPRESSION_TYPE_INTEGER;
         (yyval.expression).value.integer = YR_UNDEFINED;
       }
-#line 4838 "libyara/grammar.c"
+#line 4843 "libyara/grammar.c"
     break;
 
   case 152: /* primary_expression: "string offset" '[' primary_expression ']'  */
-#line 2684 "libyara/grammar.y"
+#line 2689 "libyara/grammar.y"
       {
         int result = yr_parser_reduce_string_identifier(
             yyscanner, (yyvsp[-3].c_string), OP_OFFSET, YR_UNDEFINED);
@@ -4850,11 +4855,11 @@ yyreduce:
         (yyval.expression).type = EXPRESSION_TYPE_INTEGER;
         (yyval.expression).value.integer = YR_UNDEFINED;
       }
-#line 4854 "libyara/grammar.c"
+#line 4859 "libyara/grammar.c"
     break;
 
   case 153: /* primary_expression: "string offset"  */
-#line 2696 "libyara/grammar.y"
+#line 2701 "libyara/grammar.y"
       {
         int result = yr_parser_emit_push_const(yyscanner, 1);
 
@@ -4869,11 +4874,11 @@ yyreduce:
         (yyval.expression).type = EXPRESSION_TYPE_INTEGER;
         (yyval.expression).value.integer = YR_UNDEFINED;
       }
-#line 4873 "libyara/grammar.c"
+#line 4878 "libyara/grammar.c"
     break;
 
   case 154: /* primary_expression: "string length" '[' primary_expression ']'  */
-#line 2711 "libyara/grammar.y"
+#line 2716 "libyara/grammar.y"
       {
         int result = yr_parser_reduce_string_identifier(
             yyscanner, (yyvsp[-3].c_string), OP_LENGTH, YR_UNDEFINED);
@@ -4885,11 +4890,11 @@ yyreduce:
         (yyval.expression).type = EXPRESSION_TYPE_INTEGER;
         (yyval.expression).value.integer = YR_UNDEFINED;
       }
-#line 4889 "libyara/grammar.c"
+#line 4894 "libyara/grammar.c"
     break;
 
   case 155: /* primary_expression: "string length"  */
-#line 2723 "libyara/grammar.y"
+#line 2728 "libyara/grammar.y"
       {
         int result = yr_parser_emit_push_const(yyscanner, 1);
 
@@ -4904,11 +4909,11 @@ yyreduce:
         (yyval.expression).type = EXPRESSION_TYPE_INTEGER;
         (yyval.expression).value.integer = YR_UNDEFINED;
       }
-#line 4908 "libyara/grammar.c"
+#line 4913 "libyara/grammar.c"
     break;
 
   case 156: /* primary_expression: identifier  */
-#line 2738 "libyara/grammar.y"
+#line 2743 "libyara/grammar.y"
       {
         int result = ERROR_SUCCESS;
 
@@ -4954,11 +4959,11 @@ yyreduce:
 
         fail_if_error(result);
       }
-#line 4958 "libyara/grammar.c"
+#line 4963 "libyara/grammar.c"
     break;
 
   case 157: /* primary_expression: '-' primary_expression  */
-#line 2784 "libyara/grammar.y"
+#line 2789 "libyara/grammar.y"
       {
         int result = ERROR_SUCCESS;
 
@@ -4979,11 +4984,11 @@ yyreduce:
 
         fail_if_error(result);
       }
-#line 4983 "libyara/grammar.c"
+#line 4988 "libyara/grammar.c"
     break;
 
   case 158: /* primary_expression: primary_expression '+' primary_expression  */
-#line 2805 "libyara/grammar.y"
+#line 2810 "libyara/grammar.y"
       {
         int result = yr_parser_reduce_operation(
             yyscanner, "+", (yyvsp[-2].expression), (yyvsp[0].expression));
@@ -5018,11 +5023,11 @@ yyreduce:
 
         fail_if_error(result);
       }
-#line 5022 "libyara/grammar.c"
+#line 5027 "libyara/grammar.c"
     break;
 
   case 159: /* primary_expression: primary_expression '-' primary_expression  */
-#line 2840 "libyara/grammar.y"
+#line 2845 "libyara/grammar.y"
       {
         int result = yr_parser_reduce_operation(
             yyscanner, "-", (yyvsp[-2].expression), (yyvsp[0].expression));
@@ -5057,11 +5062,11 @@ yyreduce:
 
         fail_if_error(result);
       }
-#line 5061 "libyara/grammar.c"
+#line 5066 "libyara/grammar.c"
     break;
 
   case 160: /* primary_expression: primary_expression '*' primary_expression  */
-#line 2875 "libyara/grammar.y"
+#line 2880 "libyara/grammar.y"
       {
         int result = yr_parser_reduce_operation(
             yyscanner, "*", (yyvsp[-2].expression), (yyvsp[0].expression));
@@ -5095,11 +5100,11 @@ yyreduce:
 
         fail_if_error(result);
       }
-#line 5099 "libyara/grammar.c"
+#line 5104 "libyara/grammar.c"
     break;
 
   case 161: /* primary_expression: primary_expression '\\' primary_expression  */
-#line 2909 "libyara/grammar.y"
+#line 2914 "libyara/grammar.y"
       {
         int result = yr_parser_reduce_operation(
             yyscanner, "\\", (yyvsp[-2].expression), (yyvsp[0].expression));
@@ -5130,11 +5135,11 @@ yyreduce:
 
         fail_if_error(result);
       }
-#line 5134 "libyara/grammar.c"
+#line 5139 "libyara/grammar.c"
     break;
 
   case 162: /* primary_expression: primary_expression '%' primary_expression  */
-#line 2940 "libyara/grammar.y"
+#line 2945 "libyara/grammar.y"
       {
         check_type((yyvsp[-2].expression), EXPRESSION_TYPE_INTEGER, "%");
         check_type((yyvsp[0].expression), EXPRESSION_TYPE_INTEGER, "%");
@@ -5157,11 +5162,11 @@ yyreduce:
           fail_if_error(ERROR_DIVISION_BY_ZERO);
         }
       }
-#line 5161 "libyara/grammar.c"
+#line 5166 "libyara/grammar.c"
     break;
 
   case 163: /* primary_expression: primary_expression '^' primary_expression  */
-#line 2963 "libyara/grammar.y"
+#line 2968 "libyara/grammar.y"
       {
         check_type((yyvsp[-2].expression), EXPRESSION_TYPE_INTEGER, "^");
         check_type((yyvsp[0].expression), EXPRESSION_TYPE_INTEGER, "^");
@@ -5171,11 +5176,11 @@ yyreduce:
         (yyval.expression).type = EXPRESSION_TYPE_INTEGER;
         (yyval.expression).value.integer = OPERATION(^, (yyvsp[-2].expression).value.integer, (yyvsp[0].expression).value.integer);
       }
-#line 5175 "libyara/grammar.c"
+#line 5180 "libyara/grammar.c"
     break;
 
   case 164: /* primary_expression: primary_expression '&' primary_expression  */
-#line 2973 "libyara/grammar.y"
+#line 2978 "libyara/grammar.y"
       {
         check_type((yyvsp[-2].expression), EXPRESSION_TYPE_INTEGER, "^");
         check_type((yyvsp[0].expression), EXPRESSION_TYPE_INTEGER, "^");
@@ -5185,11 +5190,11 @@ yyreduce:
         (yyval.expression).type = EXPRESSION_TYPE_INTEGER;
         (yyval.expression).value.integer = OPERATION(&, (yyvsp[-2].expression).value.integer, (yyvsp[0].expression).value.integer);
       }
-#line 5189 "libyara/grammar.c"
+#line 5194 "libyara/grammar.c"
     break;
 
   case 165: /* primary_expression: primary_expression '|' primary_expression  */
-#line 2983 "libyara/grammar.y"
+#line 2988 "libyara/grammar.y"
       {
         check_type((yyvsp[-2].expression), EXPRESSION_TYPE_INTEGER, "|");
         check_type((yyvsp[0].expression), EXPRESSION_TYPE_INTEGER, "|");
@@ -5199,11 +5204,11 @@ yyreduce:
         (yyval.expression).type = EXPRESSION_TYPE_INTEGER;
         (yyval.expression).value.integer = OPERATION(|, (yyvsp[-2].expression).value.integer, (yyvsp[0].expression).value.integer);
       }
-#line 5203 "libyara/grammar.c"
+#line 5208 "libyara/grammar.c"
     break;
 
   case 166: /* primary_expression: '~' primary_expression  */
-#line 2993 "libyara/grammar.y"
+#line 2998 "libyara/grammar.y"
       {
         check_type((yyvsp[0].expression), EXPRESSION_TYPE_INTEGER, "~");
 
@@ -5213,11 +5218,11 @@ yyreduce:
         (yyval.expression).value.integer = ((yyvsp[0].expression).value.integer == YR_UNDEFINED) ?
             YR_UNDEFINED : ~((yyvsp[0].expression).value.integer);
       }
-#line 5217 "libyara/grammar.c"
+#line 5222 "libyara/grammar.c"
     break;
 
   case 167: /* primary_expression: primary_expression "<<" primary_expression  */
-#line 3003 "libyara/grammar.y"
+#line 3008 "libyara/grammar.y"
       {
         int result;
 
@@ -5237,11 +5242,11 @@ yyreduce:
 
         fail_if_error(result);
       }
-#line 5241 "libyara/grammar.c"
+#line 5246 "libyara/grammar.c"
     break;
 
   case 168: /* primary_expression: primary_expression ">>" primary_expression  */
-#line 3023 "libyara/grammar.y"
+#line 3028 "libyara/grammar.y"
       {
         int result;
 
@@ -5261,19 +5266,19 @@ yyreduce:
 
         fail_if_error(result);
       }
-#line 5265 "libyara/grammar.c"
+#line 5270 "libyara/grammar.c"
     break;
 
   case 169: /* primary_expression: regexp  */
-#line 3043 "libyara/grammar.y"
+#line 3048 "libyara/grammar.y"
       {
         (yyval.expression) = (yyvsp[0].expression);
       }
-#line 5273 "libyara/grammar.c"
+#line 5278 "libyara/grammar.c"
     break;
 
 
-#line 5277 "libyara/grammar.c"
+#line 5282 "libyara/grammar.c"
 
       default: break;
     }
@@ -5497,5 +5502,5 @@ yyreturnlab:
   return yyresult;
 }
 
-#line 3048 "libyara/grammar.y"
+#line 3053 "libyara/grammar.y"
 
